@@ -43,3 +43,6 @@ SPEC = {'id': 'C06',
                'rejection preceding registration (skeleton tie + observed on the real IPC).',
  'design_ref': 'DESIGN.md §5.6',
  'assumptions': ['net/url.Parse returns the hostname/scheme the dialer will use']}
+
+SPEC['rule'] += (' Added after the seeded-change rounds: ' +
+    'Broker side: polls announce every protocol version 1.0 .. 1.3 (pattern-aware from 1.3 in the source; the accepted-pattern field present / absent / empty); patterns that differ only in letter case; the non-TLS opt-in crossed with hosts inside / outside the pattern.')
